@@ -708,7 +708,8 @@ class LangServer:
                 tmp_list = []
                 if name_replace is None:
                     name_replace = candidate.name
-                for member in candidate.mems:
+                link_obj = getattr(candidate, "link_obj", None)
+                for member in getattr(candidate, "mems", getattr(link_obj, "mems", [])):
                     tmp_text, _ = member.get_snippet(name_replace)
                     if tmp_list.count(tmp_text) > 0:
                         continue
@@ -1157,7 +1158,9 @@ class LangServer:
                 )
             )
         elif var_type == INTERFACE_TYPE_ID:
-            for member in var_obj.mems:
+            # A name linked to a generic interface reports its type as well
+            link_obj = getattr(var_obj, "link_obj", None)
+            for member in getattr(var_obj, "mems", getattr(link_obj, "mems", [])):
                 hover_str, docs = member.get_hover(long=True)
                 if hover_str is not None:
                     hover_array.append(create_hover(hover_str, docs))
